@@ -22,7 +22,8 @@ META = {
         "float() of compound units) is outside the claim",
         "identities over the reals with float literals taken exactly; range boundaries with a +-1e-9 relative band",
         "transcendental functions uninterpreted + ground facts (vlib/ufnorm.py)",
-        "sulfuric_acid_density (float()+numpy table) and density_from_concentration (float iteration): not applicable",
+        "sulfuric_acid_density: the VALUE (float()+numpy table) and density_from_concentration (float iteration) are not applicable; its range "
+        "warnings are decided before the float() barrier and ARE claimed (task sulfuric_acid_warnings)",
     ],
     "outside": ["sulfuric_acid_density", "density_from_concentration", "real-quantities evaluation", "published anchor values beyond those listed"],
     "trusted_base": ["z3 5.1", "vlib/zsym.py", "vlib/ufnorm.py", "vlib/usyms.py"],
@@ -247,7 +248,78 @@ sys.exit(1 if abs(v - %r) > %r * %r else 0)
     return res
 
 
+REPLAY_SA = '''
+import warnings
+from chempy.properties.sulfuric_acid_density_myhre_1998 import sulfuric_acid_density
+T, T0, w = %(vals)s
+with warnings.catch_warnings(record=True) as rec:
+    warnings.simplefilter("always")
+    sulfuric_acid_density(w, T, T0)
+msgs = [str(x.message) for x in rec]
+wt = any("Temperature" in m for m in msgs); ww = any("Mass fraction" in m for m in msgs)
+t = T - T0
+bad = []
+if (t < -1e-9 or t > 50 + 1e-9) and not wt: bad.append("no temperature warning for t = %%r degC" %% t)
+if (1e-9 < t < 50 - 1e-9) and wt: bad.append("spurious temperature warning for t = %%r degC" %% t)
+if (w < 0.1 - 1e-9 or w > 0.9 + 1e-9) and not ww: bad.append("no mass-fraction warning for w = %%r" %% w)
+if (0.1 + 1e-9 < w < 0.9 - 1e-9) and ww: bad.append("spurious mass-fraction warning for w = %%r" %% w)
+for b in bad: print("MISMATCH", b)
+sys.exit(1 if bad else 0)
+'''
+
+
+def task_sulfuric_warn():
+    """sulfuric_acid_density: the VALUE goes through float()/numpy (not applicable), but the range warnings are decided before that barrier:
+    they are recorded on every path up to the float() call and proved <=> (T - T0 outside 0..50) resp. (w outside 0.1..0.9)"""
+    import warnings
+    from chempy.properties.sulfuric_acid_density_myhre_1998 import sulfuric_acid_density
+    from vlib.zrun import explore_and_prove, twin_verdict, concretize, pyrepr
+    from vlib.zsym import SymTypeError
+
+    T, T0, w = Real("T"), Real("T0"), Real("w")
+    assum = [T.t >= 150, T.t <= 450, T0.t >= -300, T0.t <= 300, w.t >= 0, w.t <= 1]
+
+    def fn():
+        with warnings.catch_warnings(record=True) as rec:
+            warnings.simplefilter("always")
+            try:
+                sulfuric_acid_density(w, T, T0)
+            except (SymTypeError, TypeError):
+                pass  # the float()/numpy barrier after the range checks
+            msgs = [str(x.message) for x in rec]
+        return any("Temperature" in m for m in msgs), any("Mass fraction" in m for m in msgs)
+
+    band = Fraction(1, 10 ** 9)
+
+    def goal(p, twin=False):
+        if p.kind == "exc":
+            return False
+        wt, ww = p.value
+        t = T.t - T0.t
+        lo_w, hi_w = lift(0.1), lift(0.9)
+        out_t = z3.Or(t < -band, t > 50 + band)
+        in_t = z3.And(t > band, t < 50 - band)
+        out_w = z3.Or(w.t < lo_w - band, w.t > hi_w + band)
+        in_w = z3.And(w.t > lo_w + band, w.t < hi_w - band)
+        if twin:
+            return z3.BoolVal(not wt)
+        return z3.And(z3.Not(in_t) if wt else z3.Not(out_t), z3.Not(in_w) if ww else z3.Not(out_w))
+
+    o = explore_and_prove(fn, assum, goal, max_paths=200, deadline_s=60)
+    ot = explore_and_prove(fn, assum, lambda p: goal(p, True), max_paths=200, deadline_s=30, max_fail=1)
+    res = dict(engine="Z", functions=[env.describe(sulfuric_acid_density)], obligations=o.obligations, discharged=o.discharged, violations=[],
+               inconclusive=list(o.inconclusive), queries=o.queries, paths=o.paths, solver_s=o.solver_s, twin=twin_verdict(ot),
+               bounds="T in 150..450, T0 in -300..300 (any reference incl. 0), w in 0..1; warnings only (the value is not applicable)",
+               sample={"function": "sulfuric_acid_density(w, T, T0)", "claim": "range warnings <=> out of range"})
+    for p, m, g in o.failed[:1]:
+        vals = tuple(float(v) for v in concretize(m, [T, T0, w])) if m is not None else (300.0, 0.0, 0.5)
+        res["violations"].append(dict(key="sulfuric_warn:%s" % p.kind, desc="(T, T0, w) = %s -> warnings %r" % (vals, p.value), replay_src=REPLAY_SA % dict(vals=repr(vals))))
+    res["status"] = "violation" if res["violations"] else ("inconclusive" if res["inconclusive"] else "discharged")
+    return res
+
+
 def tasks(tier, seed):
     ts = [dict(id="C19.%s" % c["name"], fn="task_case", kwargs=dict(casename=c["name"]), timeout=600) for c in CASES]
     ts.append(dict(id="C19.shape", fn="task_shape", kwargs={}, timeout=600))
+    ts.append(dict(id="C19.sulfuric_acid_warnings", fn="task_sulfuric_warn", kwargs={}, timeout=300))
     return ts
